@@ -60,10 +60,25 @@ Covers(ds, k, cur, endp, s) ==      \* cur, endp: positions (words < 2^VB)
          IN /\ Le(vp, cur)
             /\ Covers(ds, k + 1, Max(cur, after), endp, s)
 
+(* the ASID the requests must carry: the one given, unless the setter refused it (>= number of ASIDs) *)
+AsidSetterOK(e) == e.asid >= 0 => e.asid_ok = (IF e.asid < e.nasid THEN 1 ELSE 0)
+EffAsid(e) == IF e.asid >= 0 /\ e.asid < e.nasid THEN e.asid ELSE 0 - 1
+
+(* a builder without a page range: exactly one request, without an address *)
+BroadcastAllOK(e, ins) ==
+    /\ e.k = "ok" /\ AsidSetterOK(e)
+    /\ Len(ins) = 1 /\ ins[1].m = "invlpgb"
+    /\ LET d == DecodeInvlpgb(ins[1])
+           a == EffAsid(e) IN
+       /\ d.reservedOK /\ d.vaValid = 0 /\ d.va = ZeroW /\ d.count = 0 /\ d.stride = 0
+       /\ d.pcidValid = (IF e.pcid >= 0 THEN 1 ELSE 0) /\ d.pcid = (IF e.pcid >= 0 THEN e.pcid ELSE 0)
+       /\ d.asidValid = (IF a >= 0 THEN 1 ELSE 0) /\ d.asid = (IF a >= 0 THEN a ELSE 0)
+       /\ d.global = e.global /\ d.final = e.final /\ d.nested = e.nested
+
 BroadcastOK(e, ins) ==
     LET ds == [k \in 1 .. Len(ins) |-> DecodeInvlpgb(ins[k])]
         empty == ~Lt(e.start, e.end)
-    IN /\ e.k = "ok"
+    IN /\ e.k = "ok" /\ AsidSetterOK(e)
        /\ OnlyMnemonics(ins, {"invlpgb"})
        /\ \A k \in 1 .. Len(ins) :
             LET d == ds[k] IN
@@ -73,8 +88,8 @@ BroadcastOK(e, ins) ==
             /\ d.count <= e.count_max /\ d.count <= 65535          \* per-request maximum
             /\ d.pcidValid = (IF e.pcid >= 0 THEN 1 ELSE 0)
             /\ (e.pcid >= 0 => d.pcid = e.pcid)
-            /\ d.asidValid = (IF e.asid >= 0 THEN 1 ELSE 0)
-            /\ (e.asid >= 0 => d.asid = e.asid)
+            /\ d.asidValid = (IF EffAsid(e) >= 0 THEN 1 ELSE 0)
+            /\ (EffAsid(e) >= 0 => d.asid = e.asid)
             /\ d.global = e.global /\ d.final = e.final /\ d.nested = e.nested
             /\ LowZero(d.va, SizeBits(e.s))
             /\ NoGapCrossing(d, e.s)
